@@ -1,7 +1,6 @@
 SPECIFICATION Spec
 CONSTANTS
-  Hays <- MCHays
-  Needles <- MCNeedles
+  Pairs <- MCPairs
   AB_H = 4
   AB_N = 3
   U_H = 3
